@@ -79,9 +79,19 @@ Definition never_omitted (c : string) (wires : list string) : bool :=
   match assoc c (classes Sg) with
   | Some fs => forallb (fun w => match find (fun f => String.eqb (fwireo f) w) fs with Some f => negb (fomit f) | None => false end) wires
   | None => false end.
+(* the id of a request / response is a required member of the envelope: it has no default (so it cannot be omitted as "equal to its
+   default") or is not omit-if-default *)
+Definition id_always_written (c : string) : bool :=
+  match assoc c (classes Sg) with
+  | Some fs => match find (fun f => String.eqb (fwireo f) "id") fs with
+               | Some f => negb (fomit f) || match fdefault f with NoDefault => true | _ => false end
+               | None => false end
+  | None => false end.
 Definition envelope_rows_ok : bool :=
   forallb (fun row => match cm_cls row with Some c => never_omitted c ["method"; "jsonrpc"] | None => false end
-                      && match cm_resp row with Some c => never_omitted c ["result"; "jsonrpc"] | None => true end) catalogue.
+                      && match cm_resp row with Some c => never_omitted c ["result"; "jsonrpc"] && id_always_written c
+                                                                 && match cm_cls row with Some q => id_always_written q | None => false end
+                         | None => true end) catalogue.
 Theorem C10_envelope_flags : envelope_rows_ok = true /\ length catalogue = length (requests mm) + length (notifications mm).
 Proof. vm_compute. split; reflexivity. Qed.
 (* ... and in EVERY class that has such an attribute at all, catalogue or not (the generic error envelope ResponseErrorMessage is
